@@ -1,7 +1,7 @@
 #!/bin/bash
 # run_all.sh [quick|thorough] [props...]: run registered checks sequentially, print a summary
 tier=${1:-quick}; shift
-cd /verif
+cd "${VERIF_DIR:-/verif}"
 props=${@:-$(python3 -c "import json;print(' '.join(c['property_id'] for c in json.load(open('MANIFEST.json'))['checks']))")}
 for p in $props; do
   t0=$(date +%s)
